@@ -335,6 +335,12 @@ func (en *DefaultEngine) runFirst(ctx context.Context) (bool, error) {
 	logg.DebugCtxf(ctx, "start pre-VM check")
 	depth := en.st.Depth()
 	idx := en.st.SizeIdx
+	// the value the session loaded last (its exit value) is not the pre-VM function's to replace
+	cac, haveLast := en.ca.(*cache.Cache)
+	var last string
+	if haveLast {
+		last = cac.LastValue
+	}
 	en.ca.Push()
 	rs := resource.NewMenuResource()
 	rs.AddLocalFunc("_first", en.first)
@@ -347,6 +353,9 @@ func (en *DefaultEngine) runFirst(ctx context.Context) (bool, error) {
 		}
 		// entering and leaving _first is no navigation: the page the session was on stays current
 		en.st.SizeIdx = idx
+		if haveLast {
+			cac.LastValue = last
+		}
 	}()
 	defer en.st.ResetFlag(state.FLAG_TERMINATE)
 	defer en.st.ResetFlag(state.FLAG_DIRTY)
